@@ -95,6 +95,8 @@ def run_checker(oexe, sx):
             out["fail"].append((t[0][5:], int(t[1])) + tuple(t[2:]))
         elif t[0] == "factrules-mismatch":
             out.setdefault("factrules_mismatch", []).append(" ".join(t[1:]))
+        elif t[0] == "factrules-missing":
+            out.setdefault("factrules_missing", []).append(" ".join(t[1:]))
         elif t[0] == "edges":
             out["edges"] = [tuple(int(x) for x in e.split(">")) for e in t[1:]]
         elif t[0] == "n-init-main":
@@ -423,8 +425,11 @@ def shared_run(seed, tier, log=print):
             return res
         rng = random.Random(seed * 7919 + (1 if tier == "thorough" else 0))
         cases = []
+        case_expect = {}
         for name, c in corpus_cases():
             cases.append(("corpus:" + name, c["program"], c.get("text") or A.pp_program(c["program"]), {}, c.get("family", "corpus")))
+            if c.get("expect"):
+                case_expect["corpus:" + name] = c["expect"]
         for fam, n in pl["per_family"].items():
             for k in range(n):
                 prog, text, feats = plan_gen.generate(rng, fam)
@@ -435,10 +440,13 @@ def shared_run(seed, tier, log=print):
                          ("narrow", plan_gen.directed_narrowing), ("both", plan_gen.directed_both), ("enums", plan_gen.directed_enums), ("assign", plan_gen.directed_assign)):
             for k, (prog, text) in enumerate(gen()):
                 cases.append(("%s-%d" % (fam, k), prog, text, {"directed_" + fam: 1}, fam))
-        case_expect = {}
         for k, (prog, text, exp) in enumerate(plan_gen.directed_varfields()):
             cases.append(("varfield-%d" % k, prog, text, {"directed_varfield": 1}, "varfield"))
             case_expect["varfield-%d" % k] = exp
+        for fam, gen in (("shadow", plan_gen.directed_shadowing), ("smartboth", plan_gen.directed_smart_both), ("fwd", plan_gen.directed_forward)):
+            for k, (prog, text, exp) in enumerate(gen()):
+                cases.append(("%s-%d" % (fam, k), prog, text, {"directed_" + fam: 1}, fam))
+                case_expect["%s-%d" % (fam, k)] = exp
         case_timeout = {}
         for k, (prog, text, tmo) in enumerate(plan_gen.directed_rings()):
             cases.append(("rings-%d" % k, prog, text, {"directed_rings": 1}, "rings"))
@@ -463,7 +471,7 @@ def shared_run(seed, tier, log=print):
                     except Exception as e:   # noqa
                         v, info = {"error": "conversion failed: %r" % (e,)}, None
                     rec["verdict"] = {k: v.get(k) for k in ("top", "rules", "goals", "unified", "acyclic", "temporal", "ctors", "argtypes", "domains", "solution",
-                                                              "rank_by_positions", "graph_acyclic", "error", "conv_unknown", "factrules_mismatch", "derived", "positions_model", "n_var_recs")}
+                                                              "rank_by_positions", "graph_acyclic", "error", "conv_unknown", "factrules_mismatch", "factrules_missing", "derived", "positions_model", "n_var_recs")}
                     rec["fail"] = v.get("fail", [])
                     rec["n_init_main"] = v.get("n_init_main", 0)
                     rec["n_atoms"] = sum(1 for e in dump["envs"] if e["kind"] == "atom")
@@ -474,7 +482,7 @@ def shared_run(seed, tier, log=print):
                     rec["n_disj_chosen"] = sum(1 for r in dump["recs"] if r["kind"] == 1 and r["ni"] == "T")
                     rec["n_interval_active"] = sum(1 for e in dump["envs"] if e["kind"] == "atom" and e["sigma"] == "T" and "start" in e["vars"])
                     rec["n_vars_multi"] = sum(1 for e in dump["envs"] if e["kind"] == "var" and len(e.get("dom0", [])) > 1)
-                    ok_all = v.get("solution") is True and not (v.get("derived") or {}).get("mismatches") and not v.get("factrules_mismatch") and not (v.get("positions_model") or {}).get("violations")
+                    ok_all = v.get("solution") is True and not (v.get("derived") or {}).get("mismatches") and not v.get("factrules_mismatch") and not v.get("factrules_missing") and not (v.get("positions_model") or {}).get("violations")
                     if not ok_all or fam == "corpus":
                         rec["text"] = text
                         rec["program"] = prog
